@@ -3,6 +3,7 @@ C18 property theorems. Only statements of the property + non-vacuity examples li
 helper lemmas are in HsLemmas.lean (handshake automaton) and PipeLemmas.lean (pipeline).
 -/
 import BV.C18.HsLemmas
+import BV.C18.PipeLemmas
 import BV.Generated.C18
 namespace BV.C18
 open Spec
@@ -166,7 +167,109 @@ theorem duplicate_verack_closes (c : Cfg) (s : St) (h : s.phase = .ready)
 
 example : Kind.verack.minPver ≤ 209 := by decide
 
+/-! ## Part 2 — the send pipeline, for every schedule of the model
+
+`Pipe.exec c (Pipe.init ids) sched` runs an arbitrary schedule (any interleaving of
+`QueueMessage` callers, `Disconnect`, connection loss, `queueHandler` and `outHandler` actions,
+including choices that are not enabled — they stutter) from the initial state in which the
+distinct messages `ids` are still to be queued. -/
+
+open Pipe in
+/-- FIFO: what has been written to the connection is always a prefix of the order in which
+messages entered `outputQueue`; and until the disconnect request nothing is dropped or reordered:
+the queue order is exactly written ++ in flight ++ sendQueue ++ pendingMsgs ++ outputQueue. -/
+theorem fifo_order (c : Pipe.Cfg) (ids : List Nat) (sched : List Choice) :
+    (exec c (Pipe.init ids) sched).written <+: (exec c (Pipe.init ids) sched).sent ∧
+    ((exec c (Pipe.init ids) sched).disc = false →
+      (exec c (Pipe.init ids) sched).sent =
+        (exec c (Pipe.init ids) sched).written ++ (exec c (Pipe.init ids) sched).oh.unwritten ++
+        (exec c (Pipe.init ids) sched).sendQ ++ (exec c (Pipe.init ids) sched).pending ++
+        (exec c (Pipe.init ids) sched).outQ) := by
+  have h := (fifo_exec c sched _ (ctl_init ids) (fifo_init ids)).2
+  obtain ⟨t, ht⟩ := h.pre
+  exact ⟨⟨t, ht.symm⟩, h.eq⟩
+
+open Pipe in
+/-- Only messages queued before the disconnect request reach the wire. -/
+theorem written_queued_before_disconnect (c : Pipe.Cfg) (ids : List Nat) (sched : List Choice)
+    (m : Nat) (hm : m ∈ (exec c (Pipe.init ids) sched).written) :
+    m ∈ (exec c (Pipe.init ids) sched).sentBefore :=
+  (fifo_exec c sched _ (ctl_init ids) (fifo_init ids)).2.wsub m hm
+
+open Pipe in
+/-- No completion signal is ever delivered twice. -/
+theorem done_at_most_once (c : Pipe.Cfg) (ids : List Nat) (hn : ids.Nodup) (sched : List Choice)
+    (m : Nat) : (exec c (Pipe.init ids) sched).done.count m ≤ 1 :=
+  done_count_le ids hn _ (inv_exec c ids hn sched _ (inv_init ids)) m
+
+open Pipe in
+/-- Once both handlers have returned, every message that entered `outputQueue` before the
+disconnect request has exactly one completion signal (written, skipped, or drained). -/
+theorem done_exactly_once (c : Pipe.Cfg) (ids : List Nat) (hn : ids.Nodup) (sched : List Choice)
+    (hf : final (exec c (Pipe.init ids) sched) = true) (m : Nat)
+    (hm : m ∈ (exec c (Pipe.init ids) sched).sentBefore) :
+    (exec c (Pipe.init ids) sched).done.count m = 1 :=
+  Pipe.done_exactly_once ids hn _ (inv_exec c ids hn sched _ (inv_init ids)) hf m hm
+
+open Pipe in
+/-- Complete accounting: when moreover no caller is still inside `QueueMessage` and the buffer is
+empty, every message has exactly one completion signal. -/
+theorem all_done_once (c : Pipe.Cfg) (ids : List Nat) (hn : ids.Nodup) (sched : List Choice)
+    (hf : final (exec c (Pipe.init ids) sched) = true)
+    (h0 : (exec c (Pipe.init ids) sched).todo = []) (h1 : (exec c (Pipe.init ids) sched).checked = [])
+    (h2 : (exec c (Pipe.init ids) sched).outQ = []) (m : Nat) (hm : m ∈ ids) :
+    (exec c (Pipe.init ids) sched).done.count m = 1 :=
+  Pipe.all_done_once ids hn _ (inv_exec c ids hn sched _ (inv_init ids)) hf h0 h1 h2 m hm
+
+open Pipe in
+/-- The one way a completion signal can be missing: a caller that passed the `Connected()`
+check before the disconnect request and completes its channel send only after `queueHandler`'s
+cleanup loop has finished. The message stays in the buffer; this is outside "queued before the
+disconnect request". -/
+theorem late_send_can_be_lost :
+    ∃ sched : List Choice,
+      final (exec ⟨50, fun _ => none⟩ (Pipe.init [0]) sched) = true ∧
+      (exec ⟨50, fun _ => none⟩ (Pipe.init [0]) sched).done.count 0 = 0 ∧
+      (exec ⟨50, fun _ => none⟩ (Pipe.init [0]) sched).outQ = [0] :=
+  ⟨[.check 0, .disconnect, .qQuit, .qStep, .qStep, .oQuit, .oStep, .oStep, .send 0], by decide⟩
+
+open Pipe in
+/-- Termination, part 1: every enabled action strictly decreases `measure`, so a schedule can
+contain at most `measure s` enabled actions (from any state, reachable or not). -/
+theorem all_terminate_bounded (c : Pipe.Cfg) (s : Sys) (sched : List Choice) :
+    effective c s sched ≤ Pipe.measure s := by
+  have := effective_le c sched s; omega
+
+open Pipe in
+/-- Termination, part 2: after the disconnect request, in every reachable state in which a
+handler goroutine is still alive, a handler action is enabled — so when nothing is enabled any
+more both handlers have returned. -/
+theorem all_terminate (c : Pipe.Cfg) (ids : List Nat) (sched : List Choice)
+    (hd : (exec c (Pipe.init ids) sched).disc = true)
+    (hq : ∀ ch, stepOpt c (exec c (Pipe.init ids) sched) ch = none) :
+    final (exec c (Pipe.init ids) sched) = true := by
+  cases hf : final (exec c (Pipe.init ids) sched) with
+  | true => rfl
+  | false =>
+    have := progress c _ (fifo_exec c sched _ (ctl_init ids) (fifo_init ids)).1 hd hf
+    simp [hq] at this
+
+open Pipe in
+/-- The hypotheses of `all_terminate` are satisfiable: a complete run. -/
+example : ∃ sched : List Choice,
+    (exec ⟨50, fun _ => none⟩ (Pipe.init [0, 1]) sched).disc = true ∧
+    final (exec ⟨50, fun _ => none⟩ (Pipe.init [0, 1]) sched) = true ∧
+    (exec ⟨50, fun _ => none⟩ (Pipe.init [0, 1]) sched).written = [0] ∧
+    (exec ⟨50, fun _ => none⟩ (Pipe.init [0, 1]) sched).done = [0, 1] :=
+  ⟨[.check 0, .send 0, .check 1, .send 1, .qRecvOut, .oRecv, .oStep, .oStep, .oStep, .qRecvOut,
+    .disconnect, .qQuit, .qStep, .qStep, .qStep, .oQuit, .oStep, .oStep], by decide⟩
+
 /-! ## Constants regenerated from the tree -/
+
+theorem pin_outputBufferSize : Generated.C18.outputBufferSize = 50 ∧
+    Generated.C18.capOutputQueue = 50 ∧ Generated.C18.capSendQueue = 1 ∧
+    Generated.C18.capSendDoneQueue = 1 := by decide
+
 
 theorem pin_maxProtocolVersion : Generated.C18.maxProtocolVersion = MaxProtocolVersion := by decide
 theorem pin_defaultProtocolVersion :
